@@ -393,153 +393,376 @@ Qed.
 End SwarmProofs.
 
 (* ====================================================================== *)
-(* 3. tool loop                                                            *)
+(* 3. tool loop (re-entrant)                                               *)
 Section ToolProofs.
-Variable with_tools : nat -> list Z -> presp.
-Variable complete : bool -> list Z -> option Z.
-Variable exec : Z -> Z.
-Variable auto : bool.
+Variable St : Type.
+Variable with_tools : St -> Z -> list Z -> St * presp.
+Variable complete : St -> Z -> bool -> list Z -> St * option Z.
+Variable tool_pre : St -> Z -> St * taction.
+Variable tool_post : St -> Z -> option Z -> St * Z.
+Variable has_tools has_method : bool.
 
-Notation tl := (tool_loop with_tools complete exec auto).
+Definition nested_t := St -> list Z -> Z -> Z -> bool -> St * list Z * inner * option Z.
 
-Lemma if_elim (A : Type) (b : bool) (x y z : A) :
-  (if b then x else y) = z -> (b = true /\ x = z) \/ (b = false /\ y = z).
-Proof. destruct b; auto. Qed.
+Notation xone := (exec_one complete tool_pre tool_post).
+Notation xall := (exec_all complete tool_pre tool_post).
+Notation tloop := (tool_loop with_tools complete tool_pre tool_post).
+Notation TWT := (twt with_tools complete tool_pre tool_post has_tools has_method).
+Notation ncall := (nested_call with_tools complete tool_pre tool_post has_tools has_method).
+Notation top := (transcribe_with_tools with_tools complete tool_pre tool_post has_tools has_method).
+Notation rcalls := (run_calls with_tools complete tool_pre tool_post has_tools has_method).
 
-Lemma count_app p a b : count p (a ++ b) = count p a + count p b.
-Proof. unfold count. rewrite filter_app, app_length. reflexivity. Qed.
+Definition inner_of (x : Z * inner * Z) : inner := snd (fst x).
 
-Lemma count_cons p e l : count p (e :: l) = (if p e then 1 else 0) + count p l.
-Proof. unfold count. cbn. destruct (p e); reflexivity. Qed.
+(* ---- counting through the tool executions of a round ------------------- *)
+Lemma rounds_add xs t : rounds (add_execs xs t) = rounds t.
+Proof. induction xs as [|[[c i] r] xs IH]; cbn; auto. Qed.
 
-Definition exec_events (calls res : list Z) : list tevent :=
-  map (fun cr => EvExec (fst cr) (snd cr)) (combine calls res).
+Lemma completions_add xs t : completions (add_execs xs t) = completions t.
+Proof. induction xs as [|[[c i] r] xs IH]; cbn; auto. Qed.
 
-Lemma exec_events_counts calls res :
-  count is_tools_ev (exec_events calls res) = 0 /\
-  count is_complete_ev (exec_events calls res) = 0 /\
-  count is_exec_ev (exec_events calls res) = length (combine calls res) /\
-  Forall (fun e => is_complete_ev e = false) (exec_events calls res).
+Lemma execs_add xs t : execs (add_execs xs t) = length xs + execs t.
+Proof. induction xs as [|[[c i] r] xs IH]; cbn; auto. Qed.
+
+Lemma complete_last_add xs t : complete_last t -> complete_last (add_execs xs t).
+Proof. induction xs as [|[[c i] r] xs IH]; cbn; auto. Qed.
+
+Lemma xall_cons (nested : nested_t) s log call rest :
+  xall nested s log (call :: rest) =
+  let '(s1, log1, i, r) := xone nested s log call in
+  let '(s2, log2, xs) := xall nested s1 log1 rest in
+  (s2, log2, (call, i, r) :: xs).
+Proof. reflexivity. Qed.
+
+Lemma xall_length (nested : nested_t) : forall calls s log s' log' xs,
+  xall nested s log calls = (s', log', xs) -> length xs = length calls.
 Proof.
-  unfold exec_events. induction (combine calls res) as [|x l IH].
-  - cbn. repeat split; constructor.
-  - destruct IH as (A & B & C & D). rewrite map_cons, !count_cons.
-    cbn [is_tools_ev is_complete_ev is_exec_ev length]. repeat split; try lia.
-    constructor; auto.
+  induction calls as [|call rest IH]; intros s log s' log' xs H.
+  - cbn in H. inversion H; subst. reflexivity.
+  - rewrite xall_cons in H.
+    destruct (xone nested s log call) as [[[s1 log1] i] r].
+    destruct (xall nested s1 log1 rest) as [[s2 log2] xs'] eqn:E.
+    inversion H; subst. cbn. f_equal. eapply IH; eauto.
 Qed.
 
-Lemma tl_S n k prev :
-  tl (S n) k prev =
-  match with_tools k prev with
-  | PRaise => ([EvTools k prev], TProviderRaised)
-  | PResp c [] => ([EvTools k prev], TReturned c true)
+Lemma tloop_O (nested : nested_t) s log q prev auto :
+  tloop nested 0 s log q prev auto =
+  let '(s1, log1, c) := transcribe complete s log q true prev in
+  (s1, log1, TComplete q true prev TNil, final_of c).
+Proof. reflexivity. Qed.
+
+Lemma tloop_S (nested : nested_t) n s log q prev auto :
+  tloop nested (S n) s log q prev auto =
+  let '(s1, r) := with_tools s q prev in
+  match r with
+  | PRaise => (s1, log, TTools q prev TNil, TProviderRaised)
+  | PResp c [] => (s1, log ++ [c], TTools q prev TNil, TReturned c)
   | PResp c calls =>
       if auto then
-        let res := map exec calls in
-        let '(evs, f) := tl n (S k) res in
-        (EvTools k prev :: exec_events calls res ++ evs, f)
-      else ([EvTools k prev], TReturned c false)
+        let '(s2, log2, xs) := xall nested s1 log calls in
+        let '(s3, log3, t, f) := tloop nested n s2 log2 q (map snd xs) auto in
+        (s3, log3, TTools q prev (add_execs xs t), f)
+      else (s1, log, TTools q prev TNil, TReturned c)
   end.
 Proof. reflexivity. Qed.
 
-(* a plain completion, if any, is the last event *)
-Definition complete_last (evs : list tevent) : Prop :=
-  exists pre e, evs = pre ++ [e] /\ Forall (fun x => is_complete_ev x = false) pre.
-
-Lemma tl_spec : forall n k prev evs f,
-  tl n k prev = (evs, f) ->
-  count is_tools_ev evs <= n /\
-  count is_complete_ev evs <= 1 /\
-  count is_tools_ev evs + count is_complete_ev evs <= n + 1 /\
-  (count is_complete_ev evs = 1 -> count is_tools_ev evs = n) /\
-  complete_last evs.
+(* ---- one activation: its own invocations, whatever the tools do -------- *)
+Lemma tloop_local (nested : nested_t) : forall n s log q prev auto s' log' t f,
+  tloop nested n s log q prev auto = (s', log', t, f) ->
+  rounds t <= n /\ completions t <= 1 /\ rounds t + completions t <= n + 1 /\
+  (completions t = 1 -> rounds t = n) /\ complete_last t.
 Proof.
-  induction n as [|n IH]; intros k prev evs f H.
-  - cbn in H. inversion H; subst. cbn. repeat split; try lia.
-    exists [], (EvComplete true prev). split; [reflexivity | constructor].
-  - rewrite tl_S in H.
-    assert (Hone : forall ff, (evs, f) = ([EvTools k prev], ff) ->
-              count is_tools_ev evs <= S n /\ count is_complete_ev evs <= 1 /\
-              count is_tools_ev evs + count is_complete_ev evs <= S n + 1 /\
-              (count is_complete_ev evs = 1 -> count is_tools_ev evs = S n) /\
-              complete_last evs).
-    { intros ff Heq. inversion Heq; subst. cbn. repeat split; try lia.
-      exists [], (EvTools k prev). split; [reflexivity | constructor]. }
-    destruct (with_tools k prev) as [c calls|].
+  induction n as [|n IH]; intros s log q prev auto s' log' t f H.
+  - rewrite tloop_O in H.
+    destruct (transcribe complete s log q true prev) as [[s1 log1] c].
+    inversion H; subst. cbn. repeat split; lia.
+  - rewrite tloop_S in H. destruct (with_tools s q prev) as [s1 r].
+    destruct r as [c calls|].
     + destruct calls as [|c0 calls'].
-      * apply (Hone _ (eq_sym H)).
-      * apply if_elim in H. destruct H as [[Ha H]|[Ha H]].
-        -- cbv zeta in H.
-           destruct (tl n (S k) (map exec (c0 :: calls'))) as [evs' f'] eqn:E.
-           clear Hone. apply pair_equal_spec in H. destruct H as [<- <-]. apply IH in E.
-           destruct E as (A & B & C & D & (pre & e & -> & Hpre)).
-           destruct (exec_events_counts (c0 :: calls') (map exec (c0 :: calls'))) as (X & Y & _ & W).
-           rewrite !count_cons, !count_app, X, Y. cbn [is_tools_ev is_complete_ev].
-           pose proof (count_app is_tools_ev pre [e]) as T1.
-           pose proof (count_app is_complete_ev pre [e]) as T2.
-           split; [lia|]. split; [lia|]. split; [lia|]. split.
-           { intros HH.
-             assert (P : count is_complete_ev (pre ++ [e]) = 1) by lia.
-             specialize (D P). lia. }
-           exists (EvTools k prev :: exec_events (c0 :: calls') (map exec (c0 :: calls')) ++ pre), e.
-           split.
-           ++ cbn. rewrite <- app_assoc. reflexivity.
-           ++ constructor; [reflexivity|]. apply Forall_app. split; assumption.
-        -- apply (Hone _ (eq_sym H)).
-    + apply (Hone _ (eq_sym H)).
+      * inversion H; subst. cbn. repeat split; lia.
+      * destruct auto.
+        -- destruct (xall nested s1 log (c0 :: calls')) as [[s2 log2] xs].
+           destruct (tloop nested n s2 log2 q (map snd xs) true) as [[[s3 log3] t'] f'] eqn:E.
+           inversion H; subst. apply IH in E. destruct E as (A & B & C & D & L).
+           cbn [rounds completions complete_last].
+           rewrite rounds_add, completions_add.
+           repeat split; try lia. apply complete_last_add; exact L.
+        -- inversion H; subst. cbn. repeat split; lia.
+    + inversion H; subst. cbn. repeat split; lia.
 Qed.
 
-(* a provider that asks for tools on every round: exactly n rounds, then
-   exactly one plain completion *)
-Lemma tl_forever : forall n k prev evs f,
-  (forall k p, exists c c0 calls, with_tools k p = PResp c (c0 :: calls)) ->
-  auto = true ->
-  tl n k prev = (evs, f) ->
-  count is_tools_ev evs = n /\ count is_complete_ev evs = 1 /\ n <= count is_exec_ev evs.
+Lemma twt_local (nested : nested_t) : forall s log q l a s' log' t f,
+  TWT nested s log q l a = (s', log', t, f) -> local_ok l t.
 Proof.
-  intros n k prev evs f Hall Hauto. revert k prev evs f.
-  induction n as [|n IH]; intros k prev evs f H.
-  - cbn in H. inversion H; subst. cbn. repeat split; lia.
-  - rewrite tl_S in H. destruct (Hall k prev) as (c & c0 & calls & Hw). rewrite Hw in H.
-    apply if_elim in H. destruct H as [[_ H]|[Ha _]]; [|congruence]. cbv zeta in H.
-    destruct (tl n (S k) (map exec (c0 :: calls))) as [evs' f'] eqn:E.
-    apply pair_equal_spec in H. destruct H as [<- <-]. apply IH in E. destruct E as (A & B & C).
-    destruct (exec_events_counts (c0 :: calls) (map exec (c0 :: calls))) as (X & Y & Z' & _).
-    rewrite !count_cons, !count_app, X, Y, Z'. cbn [is_tools_ev is_complete_ev is_exec_ev].
-    cbn [combine map length]. repeat split; lia.
+  intros s log q l a s' log' t f H. unfold twt in H.
+  destruct (has_tools && has_method).
+  - apply tloop_local in H. destruct H as (A & B & C & D & L).
+    unfold local_ok. repeat split; try lia; exact L.
+  - destruct (transcribe complete s log q false []) as [[s1 log1] c].
+    inversion H; subst. unfold local_ok. cbn. repeat split; lia.
 Qed.
 
-Variables has_tools has_method : bool.
-Variable max_iterations : Z.
-Notation T := (transcribe_with_tools with_tools complete exec auto has_tools has_method max_iterations).
+(* a provider that asks for tools on every round: exactly n rounds, each
+   executing at least one tool, then exactly one plain completion *)
+Definition always_tools : Prop :=
+  forall s q p, exists s' c c0 calls, with_tools s q p = (s', PResp c (c0 :: calls)).
 
-Lemma tool_rounds_le_proof :
-  let evs := fst T in
-  count is_tools_ev evs <= Z.to_nat max_iterations /\
-  count is_complete_ev evs <= 1 /\
-  count is_tools_ev evs + count is_complete_ev evs <= Z.to_nat max_iterations + 1 /\
-  ((0 <= max_iterations)%Z ->
-     (Z.of_nat (count is_tools_ev evs) <= max_iterations)%Z /\
-     (Z.of_nat (count is_tools_ev evs + count is_complete_ev evs) <= max_iterations + 1)%Z) /\
-  (exists pre e, evs = pre ++ [e] /\ Forall (fun x => is_complete_ev x = false) pre).
+Lemma tloop_forever (nested : nested_t) : always_tools ->
+  forall n s log q prev s' log' t f,
+  tloop nested n s log q prev true = (s', log', t, f) ->
+  rounds t = n /\ completions t = 1 /\ n <= execs t.
 Proof.
-  unfold transcribe_with_tools. destruct (has_tools && has_method).
-  - destruct (tl (Z.to_nat max_iterations) 0 []) as [evs f] eqn:E. cbn [fst].
-    apply tl_spec in E. destruct E as (A & B & C & _ & L).
-    repeat split; try lia. exact L.
-  - cbn. repeat split; try lia.
-    exists [], (EvComplete false []). split; [reflexivity | constructor].
+  intros Hall. induction n as [|n IH]; intros s log q prev s' log' t f H.
+  - rewrite tloop_O in H.
+    destruct (transcribe complete s log q true prev) as [[s1 log1] c].
+    inversion H; subst. cbn. repeat split; lia.
+  - rewrite tloop_S in H. destruct (Hall s q prev) as (s1 & c & c0 & calls & Hw).
+    rewrite Hw in H.
+    destruct (xall nested s1 log (c0 :: calls)) as [[s2 log2] xs] eqn:X.
+    destruct (tloop nested n s2 log2 q (map snd xs) true) as [[[s3 log3] t'] f'] eqn:E.
+    inversion H; subst. apply IH in E. destruct E as (A & B & C).
+    apply xall_length in X. cbn [length] in X.
+    cbn [rounds completions execs]. rewrite rounds_add, completions_add, execs_add.
+    repeat split; lia.
+Qed.
+
+Lemma twt_forever (nested : nested_t) : always_tools -> has_tools = true -> has_method = true ->
+  forall s log q l a s' log' t f,
+  TWT nested s log q l a = (s', log', t, f) -> exact_when_auto l a t.
+Proof.
+  intros Hall Ht Hm s log q l a s' log' t f H ->. unfold twt in H. rewrite Ht, Hm in H.
+  cbn [andb] in H. eapply tloop_forever; eauto.
+Qed.
+
+(* ---- every nested activation ------------------------------------------- *)
+Section Generic.
+Variable P : Z -> bool -> trace -> Prop.
+Hypothesis P_twt : forall (nested : nested_t) s log q l a s' log' t f,
+  TWT nested s log q l a = (s', log', t, f) -> P l a t.
+
+Section OneLevel.
+Variable nested : nested_t.
+Hypothesis nested_good : forall s log q l a s' log' i c,
+  nested s log q l a = (s', log', i, c) -> inner_all P i.
+
+Lemma xone_all : forall s log call s' log' i r,
+  xone nested s log call = (s', log', i, r) -> inner_all P i.
+Proof.
+  intros s log call s' log' i r H. unfold exec_one in H.
+  destruct (tool_pre s call) as [s1 act]. destruct act as [r0|r0|q0|q0 l0 a0].
+  - inversion H; subst. exact I.
+  - inversion H; subst. exact I.
+  - destruct (transcribe complete s1 log q0 false []) as [[s2 log2] c].
+    destruct (tool_post s2 call c) as [s3 r']. inversion H; subst. exact I.
+  - destruct (nested s1 log q0 l0 a0) as [[[s2 log2] i'] c] eqn:E.
+    destruct (tool_post s2 call c) as [s3 r']. inversion H; subst.
+    eapply nested_good; eauto.
+Qed.
+
+Lemma xall_all : forall calls s log s' log' xs,
+  xall nested s log calls = (s', log', xs) -> Forall (fun x => inner_all P (inner_of x)) xs.
+Proof.
+  induction calls as [|call rest IH]; intros s log s' log' xs H.
+  - cbn in H. inversion H; subst. constructor.
+  - rewrite xall_cons in H.
+    destruct (xone nested s log call) as [[[s1 log1] i] r] eqn:E1.
+    destruct (xall nested s1 log1 rest) as [[s2 log2] xs'] eqn:E2.
+    inversion H; subst. constructor.
+    + cbn. eapply xone_all; eauto.
+    + eapply IH; eauto.
+Qed.
+
+Lemma nested_all_add xs t :
+  Forall (fun x => inner_all P (inner_of x)) xs -> nested_all P t -> nested_all P (add_execs xs t).
+Proof.
+  induction xs as [|[[c i] r] xs IH]; intros F Ht; cbn [add_execs]; auto.
+  inversion F; subst. cbn [nested_all]. split; [assumption | apply IH; assumption].
+Qed.
+
+Lemma tloop_all : forall n s log q prev auto s' log' t f,
+  tloop nested n s log q prev auto = (s', log', t, f) -> nested_all P t.
+Proof.
+  induction n as [|n IH]; intros s log q prev auto s' log' t f H.
+  - rewrite tloop_O in H.
+    destruct (transcribe complete s log q true prev) as [[s1 log1] c].
+    inversion H; subst. exact I.
+  - rewrite tloop_S in H. destruct (with_tools s q prev) as [s1 r].
+    destruct r as [c calls|].
+    + destruct calls as [|c0 calls'].
+      * inversion H; subst. exact I.
+      * destruct auto.
+        -- destruct (xall nested s1 log (c0 :: calls')) as [[s2 log2] xs] eqn:X.
+           destruct (tloop nested n s2 log2 q (map snd xs) true) as [[[s3 log3] t'] f'] eqn:E.
+           inversion H; subst. cbn [nested_all]. apply nested_all_add.
+           ++ eapply xall_all; eauto.
+           ++ eapply IH; eauto.
+        -- inversion H; subst. exact I.
+    + inversion H; subst. exact I.
+Qed.
+
+Lemma twt_all : forall s log q l a s' log' t f,
+  TWT nested s log q l a = (s', log', t, f) -> nested_all P t.
+Proof.
+  intros s log q l a s' log' t f H. unfold twt in H.
+  destruct (has_tools && has_method).
+  - eapply tloop_all; eauto.
+  - destruct (transcribe complete s log q false []) as [[s1 log1] c].
+    inversion H; subst. exact I.
+Qed.
+End OneLevel.
+
+Lemma ncall_S d s log q l a :
+  ncall (S d) s log q l a =
+  let '(s1, log1, t, f) := TWT (ncall d) s log q l a in
+  (s1, log1, ICall q l a t f, content_of f).
+Proof. reflexivity. Qed.
+
+Lemma ncall_all : forall d s log q l a s' log' i c,
+  ncall d s log q l a = (s', log', i, c) -> inner_all P i.
+Proof.
+  induction d as [|d IH]; intros s log q l a s' log' i c H.
+  - cbn in H. inversion H; subst. exact I.
+  - rewrite ncall_S in H.
+    destruct (TWT (ncall d) s log q l a) as [[[s1 log1] t] f] eqn:E.
+    inversion H; subst. cbn [inner_all]. split.
+    + eapply P_twt; eauto.
+    + eapply twt_all; eauto.
+Qed.
+
+Lemma top_all : forall d s log q l a s' log' t f,
+  top d s log q l a = (s', log', t, f) -> P l a t /\ nested_all P t.
+Proof.
+  intros d s log q l a s' log' t f H. unfold transcribe_with_tools in H. split.
+  - eapply P_twt; eauto.
+  - eapply twt_all; [|eauto]. apply ncall_all.
+Qed.
+
+(* any history of calls on one nucleus *)
+Lemma rcalls_all : forall cs d s log q rs logf,
+  rcalls d s log q cs = (rs, logf) ->
+  Forall (fun c => P (c_limit c) (c_auto c) (c_trace c) /\ nested_all P (c_trace c)) rs.
+Proof.
+  induction cs as [|[l a] cs IH]; intros d s log q rs logf H.
+  - cbn in H. inversion H; subst. constructor.
+  - cbn [run_calls] in H.
+    destruct (top d s log q l a) as [[[s1 log1] t] f] eqn:E.
+    destruct (rcalls d s1 log1 (q + 1)%Z cs) as [rs' logf'] eqn:E2.
+    inversion H; subst. constructor.
+    + cbn. eapply top_all; eauto.
+    + eapply IH; eauto.
+Qed.
+End Generic.
+
+Definition local_P (l : Z) (_ : bool) (t : trace) : Prop := local_ok l t.
+
+Lemma tool_rounds_le_proof : forall d s log q limit auto s' log' t f,
+  top d s log q limit auto = (s', log', t, f) ->
+  local_ok limit t /\ nested_all local_P t.
+Proof.
+  intros. eapply (top_all local_P); eauto.
+  intros nested s0 log0 q0 l a s'0 log'0 t0 f0 H0. eapply twt_local; eauto.
+Qed.
+
+Lemma tool_history_proof : forall cs d s log q rs logf,
+  rcalls d s log q cs = (rs, logf) ->
+  Forall (fun c => local_ok (c_limit c) (c_trace c) /\ nested_all local_P (c_trace c)) rs.
+Proof.
+  intros. eapply (rcalls_all local_P); eauto.
+  intros nested s0 log0 q0 l a s'0 log'0 t0 f0 H0. eapply twt_local; eauto.
 Qed.
 
 Lemma tool_forever_exact_proof :
-  (forall k p, exists c c0 calls, with_tools k p = PResp c (c0 :: calls)) ->
-  auto = true -> has_tools = true -> has_method = true ->
-  let evs := fst T in
-  count is_tools_ev evs = Z.to_nat max_iterations /\ count is_complete_ev evs = 1 /\
-  Z.to_nat max_iterations <= count is_exec_ev evs.
+  always_tools -> has_tools = true -> has_method = true ->
+  forall d s log q limit auto s' log' t f,
+  top d s log q limit auto = (s', log', t, f) ->
+  exact_when_auto limit auto t /\ nested_all exact_when_auto t.
 Proof.
-  intros Hall Hauto -> ->. unfold transcribe_with_tools. cbn [andb].
-  destruct (tl (Z.to_nat max_iterations) 0 []) as [evs f] eqn:E. cbn [fst].
-  exact (tl_forever _ _ _ _ _ Hall Hauto E).
+  intros Hall Ht Hm d s log q limit auto s' log' t f H.
+  eapply (top_all exact_when_auto); eauto.
+  intros nested s0 log0 q0 l a s'0 log'0 t0 f0 H0. eapply twt_forever; eauto.
+Qed.
+
+(* ---- the nesting fuel is irrelevant once it sufficed -------------------- *)
+Section Fuel.
+Variables n1 n2 : nested_t.
+Hypothesis n12 : forall s log q l a s' log' i c,
+  n1 s log q l a = (s', log', i, c) -> inner_fuel_ok i -> n2 s log q l a = (s', log', i, c).
+
+Lemma xone_fuel : forall s log call s' log' i r,
+  xone n1 s log call = (s', log', i, r) -> inner_fuel_ok i ->
+  xone n2 s log call = (s', log', i, r).
+Proof.
+  intros s log call s' log' i r H F. unfold exec_one in *.
+  destruct (tool_pre s call) as [s1 act]. destruct act as [r0|r0|q0|q0 l0 a0]; try exact H.
+  destruct (n1 s1 log q0 l0 a0) as [[[s2 log2] i'] c] eqn:E.
+  destruct (tool_post s2 call c) as [s3 r'] eqn:E2. inversion H; subst.
+  rewrite (n12 _ _ _ _ _ _ _ _ _ E F). rewrite E2. reflexivity.
+Qed.
+
+Lemma xall_fuel : forall calls s log s' log' xs,
+  xall n1 s log calls = (s', log', xs) -> Forall (fun x => inner_fuel_ok (inner_of x)) xs ->
+  xall n2 s log calls = (s', log', xs).
+Proof.
+  induction calls as [|call rest IH]; intros s log s' log' xs H F.
+  - exact H.
+  - rewrite xall_cons in *.
+    destruct (xone n1 s log call) as [[[s1 log1] i] r] eqn:E1.
+    destruct (xall n1 s1 log1 rest) as [[s2 log2] xs'] eqn:E2.
+    inversion H; subst. inversion F; subst. cbn in H2.
+    rewrite (xone_fuel _ _ _ _ _ _ _ E1 H2). rewrite (IH _ _ _ _ _ E2 H3). reflexivity.
+Qed.
+
+Lemma fuel_ok_add xs t :
+  fuel_ok (add_execs xs t) -> Forall (fun x => inner_fuel_ok (inner_of x)) xs /\ fuel_ok t.
+Proof.
+  induction xs as [|[[c i] r] xs IH]; cbn [add_execs fuel_ok]; intros H.
+  - split; [constructor | exact H].
+  - destruct H as (Hi & Hr). destruct (IH Hr) as (A & B). split; [constructor; assumption | exact B].
+Qed.
+
+Lemma tloop_fuel : forall n s log q prev auto s' log' t f,
+  tloop n1 n s log q prev auto = (s', log', t, f) -> fuel_ok t ->
+  tloop n2 n s log q prev auto = (s', log', t, f).
+Proof.
+  induction n as [|n IH]; intros s log q prev auto s' log' t f H F.
+  - exact H.
+  - rewrite tloop_S in *. destruct (with_tools s q prev) as [s1 r].
+    destruct r as [c calls|]; [|exact H].
+    destruct calls as [|c0 calls']; [exact H|].
+    destruct auto; [|exact H].
+    destruct (xall n1 s1 log (c0 :: calls')) as [[s2 log2] xs] eqn:X.
+    destruct (tloop n1 n s2 log2 q (map snd xs) true) as [[[s3 log3] t'] f'] eqn:E.
+    inversion H; subst. cbn [fuel_ok] in F. apply fuel_ok_add in F. destruct F as (Fx & Ft).
+    rewrite (xall_fuel _ _ _ _ _ _ X Fx). rewrite (IH _ _ _ _ _ _ _ _ _ E Ft). reflexivity.
+Qed.
+
+Lemma twt_fuel : forall s log q l a s' log' t f,
+  TWT n1 s log q l a = (s', log', t, f) -> fuel_ok t -> TWT n2 s log q l a = (s', log', t, f).
+Proof.
+  intros s log q l a s' log' t f H F. unfold twt in *.
+  destruct (has_tools && has_method); [|exact H]. eapply tloop_fuel; eauto.
+Qed.
+End Fuel.
+
+Lemma ncall_fuel_step : forall d s log q l a s' log' i c,
+  ncall d s log q l a = (s', log', i, c) -> inner_fuel_ok i ->
+  ncall (S d) s log q l a = (s', log', i, c).
+Proof.
+  induction d as [|d IH]; intros s log q l a s' log' i c H F.
+  - cbn in H. inversion H; subst. destruct F.
+  - rewrite ncall_S in H. rewrite (ncall_S (S d)).
+    destruct (TWT (ncall d) s log q l a) as [[[s1 log1] t] f] eqn:E.
+    inversion H; subst. cbn [inner_fuel_ok] in F.
+    rewrite (twt_fuel (ncall d) (ncall (S d)) IH _ _ _ _ _ _ _ _ _ E F). reflexivity.
+Qed.
+
+Lemma tool_fuel_irrelevant_proof : forall d d' s log q limit auto s' log' t f,
+  top d s log q limit auto = (s', log', t, f) -> fuel_ok t -> d <= d' ->
+  top d' s log q limit auto = (s', log', t, f).
+Proof.
+  intros d d' s log q limit auto s' log' t f H F Hle.
+  induction Hle as [|d' Hle IH]; [exact H|].
+  unfold transcribe_with_tools in *.
+  eapply (twt_fuel (ncall d') (ncall (S d'))); eauto. apply ncall_fuel_step.
 Qed.
 End ToolProofs.
